@@ -195,6 +195,117 @@ func runC16(w *World, r *Report) {
 		}
 	}
 
+	// the option functions that ADD to a list keep what an earlier option of the same kind put there: two
+	// WithToolOption values reaching one tools node (an undesignated and a designated one, two in one option, two
+	// react.WithToolOptions) both apply
+	r.Rule("C16.additive-options-accumulate", "the additive option functions (WithToolOption, WithGraphCompileCallbacks, host.WithAgentCallbacks — frozen list, read from the code: the ones documented as 'adds') store a list that derives from both the field's earlier content and their argument", 3)
+	{
+		additive := []struct{ pkg, fn, field string }{
+			{"compose", "WithToolOption", "ToolOptions"},
+			{"compose", "WithGraphCompileCallbacks", "callbacks"},
+			{"flow/agent/multiagent/host", "WithAgentCallbacks", "agentCallbacks"},
+		}
+		for _, a := range additive {
+			outer := w.Fn(a.pkg, a.fn)
+			n := 0
+			for _, lit := range withAnons(outer) {
+				if lit == outer {
+					continue
+				}
+				for _, fw := range fieldWrites(lit) {
+					if fw.field.Name() != a.field {
+						continue
+					}
+					n++
+					fromOld, fromNew := false, false
+					instrs(lit, func(in ssa.Instruction) {
+						if u, ok := in.(*ssa.UnOp); ok {
+							if f, _ := loadedField(u); f != nil && sameField(f, fw.field) && derivesFrom(fw.val, u) {
+								fromOld = true
+							}
+						}
+					})
+					for _, fv := range lit.FreeVars {
+						if derivesFrom(fw.val, fv) {
+							fromNew = true
+						}
+					}
+					r.Check(fromOld && fromNew, "C16.additive-options-accumulate", fmt.Sprintf("%s: %s keeps earlier and new entries", a.fn, a.field), fw.in.Pos(), "append(old, new...)", fmt.Sprintf("the stored list derives from the earlier content=%v, from the argument=%v: when two options of this kind reach the same target only the last one survives (an undesignated WithToolsNodeOption(WithToolOption(a)) is silently cancelled by a designated WithToolOption(b))", fromOld, fromNew))
+				}
+			}
+			if n == 0 {
+				undecidedf("C16.additive-options-accumulate: %s no longer stores %s", a.fn, a.field)
+			}
+		}
+	}
+
+	// what a nested graph is handed for one designated path is the rest of THAT path
+	r.Rule("C16.forwarded-path-is-this-path", "extractOption: inside the loop over an option's designated paths, the path list stored into the copy forwarded to a nested graph is empty (the path ended at the graph) or computed from the path of the current iteration — never from the option's first path or from the copy's own list", 2)
+	{
+		eo := w.Fn("compose", "extractOption")
+		fPaths := w.Field("compose", "Option", "paths")
+		n := 0
+		for _, li := range naturalLoops(eo) {
+			var idx *ssa.Phi
+			for _, in := range li.header.Instrs {
+				if p, ok := in.(*ssa.Phi); ok && p.Comment == "rangeindex" {
+					idx = p
+				}
+			}
+			if idx == nil {
+				continue
+			}
+			var elems []ssa.Value
+			for _, ref := range *idx.Referrers() {
+				b, ok := ref.(*ssa.BinOp)
+				if !ok || b.Op != token.ADD {
+					continue
+				}
+				for _, r2 := range *b.Referrers() {
+					if ia, ok := r2.(*ssa.IndexAddr); ok && ia.Index == ssa.Value(b) && isLoadOfField(ia.X, fPaths) {
+						for _, r3 := range *ia.Referrers() {
+							if ld, ok := r3.(*ssa.UnOp); ok {
+								elems = append(elems, ld)
+							}
+						}
+					}
+				}
+			}
+			if len(elems) == 0 {
+				continue
+			}
+			for _, fw := range fieldWrites(eo) {
+				if !sameField(fw.field, fPaths) || !li.body[fw.in.Block()] {
+					continue
+				}
+				n++
+				good := false
+				// an empty list
+				if sl, ok := fw.val.(*ssa.Slice); ok {
+					if al, ok := sl.X.(*ssa.Alloc); ok {
+						if at, ok := al.Type().(*types.Pointer).Elem().Underlying().(*types.Array); ok && at.Len() == 0 {
+							good = true
+						}
+					}
+				}
+				if ms, ok := fw.val.(*ssa.MakeSlice); ok {
+					if l, ok := constInt(ms.Len); ok && l == 0 {
+						good = true
+					}
+				}
+				for _, el := range elems {
+					if dataDependsOn(fw.val, el) {
+						good = true
+					}
+				}
+				r.Check(good, "C16.forwarded-path-is-this-path", fmt.Sprintf("extractOption: forwarded path list #%d", n), fw.in.Pos(), "empty, or the tail of the path of this iteration", "the copy handed to the nested graph carries a path that is not computed from the path being processed (e.g. the copy's own first path with its head removed): for the second and later paths of one option the nested graph receives the tail of the option's FIRST path — DesignateNodeWithPath(<A,n1>,<B,n2>) reaches B/n1 and never B/n2, callbacks fire for the wrong node, and <B>,<A,n1> fails with 'designated an empty path'")
+			}
+		}
+		if n < 2 {
+			undecidedf("C16.forwarded-path-is-this-path: %d path-list stores found inside the loop over designated paths (2 expected)", n)
+		}
+	}
+
 	// ---- error-arms
 	r.Rule("C16.one-path-per-key", "Option.DesignateNode turns each of its keys into a path of its own: every NewNodePath call in it takes a one-element list whose element is one element of the key list (never the key list itself, which would be ONE nested path k1/k2/…)", 1)
 	{
